@@ -130,7 +130,29 @@ class PathEnumerator:
             env[fn.node.args.vararg.arg] = ("varargs", fn.node.args.vararg.arg)
         frame = Frame(fn, fn.module, env, self_cls or fn.cls, 0)
         start = Path(TRUE, [], env)
-        return self.block(self.norm.body(fn, fn.node, loop_view=self.loop_view, keep=frozenset(self.no_inline)) if self.inline_private else fn.body, [start], frame)
+        out = self.block(self.norm.body(fn, fn.node, loop_view=self.loop_view, keep=frozenset(self.no_inline)) if self.inline_private else fn.body, [start], frame)
+        if self.ev.lambdas:
+            self._beta_paths(out, 0)
+        return out
+
+    def _beta_paths(self, paths: List[Path], depth: int) -> None:
+        """lambdas taken from a table and left in call position by a substitution are applied (events, values; loop bodies included)"""
+        if depth > 4:
+            return
+        for p in paths:
+            for e in p.events:
+                if e.term is not None and isinstance(e.term, tuple):
+                    try:
+                        e.term = self.ev.beta(e.term)
+                    except Exception:
+                        pass
+                if e.kind == "loop" and isinstance(e.extra, dict) and "paths" in e.extra:
+                    self._beta_paths(e.extra["paths"], depth + 1)
+            if p.value is not None:
+                try:
+                    p.value = self.ev.beta(p.value)
+                except Exception:
+                    pass
 
     # ------------------------------------------------------------------------------------------
     def feasible(self, cond: Term) -> bool:
